@@ -160,6 +160,25 @@ theorem energy_min_raises_iff (psi : V) :
   | ok r =>
     cases hc : r.converged <;> cases hb : r.happyBreakdown <;> simp [hc, hb]
 
+/-- The PUBLIC `krylov_energy_minimization(op, psi, norm_tolerance, residual_tolerance, max_krylov_dim)`
+is the implementation run with the caller's tolerances *under their own names* (and the default
+`max_restarts = 100`): whatever it returns without happy breakdown has
+`residual_norm < residual_tolerance` — the caller's `residual_tolerance`. -/
+theorem public_wrapper_uses_callers_tolerances (horder : ∀ a b c : R, ¬ a < b → a < c → b < c)
+    (numTol : R) (psi : V) (nt rt : R) (md : Nat) (x : V × Option R)
+    (h : energyMinPublic O eigh numTol psi nt rt md = .ok x) :
+    ∃ r, energyImpl O eigh { residTol := rt, normTol := nt, maxDim := md, maxRestarts := 100,
+                             numTol := numTol } psi = .ok r ∧
+      x = (r.groundState, r.groundEnergy) ∧
+      (r.happyBreakdown = false → ∃ ρ, r.residualNorm = some ρ ∧ ρ < rt) := by
+  obtain ⟨r, hr, hflag, hx⟩ := (energy_min_returns_iff O eigh _ psi x).mp h
+  refine ⟨r, hr, hx, fun hb => ?_⟩
+  have hc : r.converged = true := by
+    rcases hflag with hc | hh
+    · exact hc
+    · rw [hb] at hh; exact absurd hh (by simp)
+  exact converged_residual_lt O eigh _ horder psi hr hc hb
+
 end Logic
 
 /-! ### (b) exact arithmetic -/
